@@ -18,7 +18,8 @@ CLAIMED = {
                 text="M: TLC explores all interleavings of get / put / unique put / remove at the grain of the hooked atomic accesses on one root border (YkConc), "
                      "across a root border split (YkConc2), across border deletion + collapse of the interior root (YkConc3) and across a split under an existing "
                      "parent / interior insert / interior shift-delete / collapse racing with a new root (YkConc4), across next layers (YkConc5) and across an interior split with "
-                     "parent change under lock_parent (YkConc6): every result is a binding the key had during the call (LinOK). "
+                     "parent change under lock_parent (YkConc6) and across two interior levels (YkConc7: collapse of an inner interior through swap_child, of the root interior, of both, vs split of the "
+                     "survivor and descents): every result is a binding the key had during the call (LinOK). "
                      "S: the same programs on the real tree (fan-out 15): every logged access must be the enabled model action with the same value. "
                      "T: Real get/put/unique-put/remove calls of 2-3 threads are executed under a deterministic scheduler that preempts at every hooked atomic access "
                      "(version, permutation, slot, link, root words) on seven tree shapes (single border, full border about to split, interior levels, next layers, "
@@ -27,12 +28,13 @@ CLAIMED = {
                 note=CONC_NOTE, tech=CONC_TECH),
     "C04": dict(cat="model_checking", ref="DESIGN.md 3.6, 6 (C04)",
                 text="M: YkConc programs C, D (scan of one border vs put / remove: ScanOK) and YkConc4 programs g-j (full scan over 2-3 borders vs split, interior insert, "
-                     "collapse, insert, remove: ScanOK). T: As C01 with scans (forward, size-limited, right-to-left) in the thread programs: every key of the interval a scan covered contributes one read "
+                     "collapse, insert, remove: ScanOK) and YkConc8 (full scan through a next-layer link: nested scan, clean-up and re-read of the border when the nested scan fails, "
+                     "vs layer removal / creation / slot reuse). T: As C01 with scans (forward, size-limited, right-to-left) in the thread programs: every key of the interval a scan covered contributes one read "
                      "(returned value or ABSENT) that TLC must place in the per-key linearization (returned pairs were current, stable keys are never lost, absent keys "
                      "were absent), plus shape facts (strictly ascending, inside the interval, valid non-null values, limit respected).", note=CONC_NOTE, tech=CONC_TECH),
     "C06": dict(cat="model_checking", ref="DESIGN.md 3.6, 6 (C06)",
                 text="M: YkConc4 programs g-j with the collected (version, node) pairs as part of the scan's result: NvOK (set never empty; every completed insert of a new key is in "
-                     "the result or has left a collected pair stale) in all interleavings. T: As C04 with the scan's node_version_vec: after every run the recorded (version, node) pairs are probed at quiescence; TLC requires that a key the scan "
+                     "the result or has left a collected pair stale) in all interleavings; the same for scans through a next-layer link (YkConc8). T: As C04 with the scan's node_version_vec: after every run the recorded (version, node) pairs are probed at quiescence; TLC requires that a key the scan "
                      "covered and reported absent, absent initially, never removed and put by a call that had not returned when the scan started, leaves a stale pair.",
                 note=CONC_NOTE, tech=CONC_TECH),
     "C07": dict(cat="model_checking", ref="DESIGN.md 3.7, 6 (C07)",
@@ -91,7 +93,8 @@ CLAIMED = {
                 text="M (first sentence): YkIscan = iscan_findfirst / iscan_findnext transliterated; IscanOK / IscanPrefixOK (result = abstract interval in cursor order, every "
                      "stop point a prefix) in every reachable state of the small tree models for all arguments, bound by TraceTree iscan-model. M (second sentence): the cursor at hook grain in YkConc4 (iscan_open, iscan_next with iscan_check_retry, neighbour move, retry_after_fb, "
                      "retry_from_root) over 2-3 borders vs split, interior insert, collapse / new root, insert, remove, unlink + re-insert: ScanOK, NvOK in all "
-                     "interleavings of 5 programs, and step-level conformance of the real cursor to it. First sentence (sequential cursor): every real iscan_open/next sequence (both directions, all endpoint kinds, early stop) is judged by TLC "
+                     "interleavings of 5 programs, and step-level conformance of the real cursor to it; the cursor ACROSS a next-layer link (stack of two layers, retry_after_fb / retry_from_root per layer) "
+                     "in YkConc9, 6 programs, bound by TraceConc9. First sentence (sequential cursor): every real iscan_open/next sequence (both directions, all endpoint kinds, early stop) is judged by TLC "
                      "against the ordered abstract map incl. full_key and argument rejection. Second sentence: cursor steps of one thread interleaved with writers "
                      "of another under the deterministic scheduler (trees with next layers included): monotone in-interval keys, values placed in the per-key "
                      "linearization, stable keys not skipped, the callback's version set judged as in C06, faults reported; paused cursors (a write between two iscan_next calls, incl. "
